@@ -94,7 +94,7 @@ def r12(ctx, prog):
                 why = '%s() does not pass its own parameters on, in order' % m
             if ok and f.d.get('rt', f.d.get('ret', '')) not in ('void', '') and m in ('send', 'getReceiveBuffer'):
                 rets = [r for r in q.returns(f) if r.get('val') is not None]
-                carried = [r for r in rets if any(c['i'] in set(f.walk(r['val'])) for c in calls)]
+                carried = [r for r in rets if q.carries(f, r['val'], [c['i'] for c in calls])]
                 ok = bool(carried)
                 why = '%s() does not return what the descriptor\'s %s() returned' % (m, wm)
             ctx.ob('C06.R12', '%s|forwards-to-%s' % (f.name, wm), ok, 'reaches sp_buffered_fd_->%s() whenever the descriptor exists' % wm if ok else
@@ -114,7 +114,7 @@ def r12(ctx, prog):
     calls = [c for c in sv.calls() if c.get('fn') == 'send' and c.get('cls', '').endswith('TcpConnection')]
     ats = [c for c in sv.calls() if c.get('fn') in ('at', 'operator[]') and c.get('args') and (sv.s(sv.strip_casts(c['args'][0])) or {}).get('d') == sv.params[0]['d']]
     ok = bool(calls) and bool(ats) and all(len(c.get('args', [])) == 2 and [(sv.s(sv.strip_casts(a)) or {}).get('d') for a in c['args']] == [p_['d'] for p_ in sv.params[1:]] for c in calls) and \
-        any(any(c['i'] in set(sv.walk(r['val'])) for c in calls) for r in q.returns(sv) if r.get('val') is not None)
+        any(q.carries(sv, r['val'], [c['i'] for c in calls]) for r in q.returns(sv) if r.get('val') is not None)
     ctx.ob('C06.R12', '%s|forwards-to-connection' % sv.name, ok, 'looks the connection up under the token and returns its send(data, size)' if ok else
            'TcpServer::send does not hand (data, size) to the connection the token names and return its result', where=sv.loc(sv.body))
 
@@ -181,7 +181,7 @@ def r14(ctx, prog):
         calls = [c for c in f.calls() if c.get('fn') == m and 'obj' in c and subj(f)(f.strip_casts(c['obj']))]
         ok = bool(calls) and all(_param_passthrough(f, c) for c in calls) and \
             not f.cfg.exists_path(f.cfg.entry_point(), 'exit', avoid=q.pts(f, calls), edge_filter=_null_edges(f, subj(f))) and \
-            any(any(c['i'] in set(f.walk(r['val'])) for c in calls) for r in q.returns(f) if r.get('val') is not None)
+            any(q.carries(f, r['val'], [c['i'] for c in calls]) for r in q.returns(f) if r.get('val') is not None)
         ctx.ob('C06.R14', '%s|forwards' % f.name, ok, 'reaches the live connection\'s %s() and returns its answer' % m if ok else
                'TcpClient::%s does not hand its parameters to the live connection and return what that returned' % m, where=f.loc(f.body))
     oc = prog.fn1(C + '::onTcpConnected')
